@@ -5,6 +5,22 @@ ROOT = os.path.dirname(os.path.dirname(os.path.abspath(__file__)))
 props = [json.loads(l) for l in open(os.path.join(ROOT, "properties.jsonl"))]
 
 CHECKS = {
+ "C01": dict(engine="emitted", design="5 C01, 3.3, 3.4",
+   technique="TLC model checking of Driver.tla (emitted shift/reduce loop with environment-supplied input) against the parser-free language definition Cfg.tla + replay of every explored run on real emitted parsers compiled with rustc + TLC-judged long inputs (DriverJudge)",
+   text="MC_Driver explores, for every selected grammar (29 classics + a seeded sample of the 12 383-grammar universe) and every input of up to n tokens the environment can supply, the emitted parse loop over the LALR(1) tables and checks acceptance iff Cfg!IsSentence (a CYK-style least fixed point with no automaton), stack discipline and (liveness) termination. Each finished run is a prediction; the same grammars are pushed through the real generate, the emitted Rust is compiled (payload types without any derive) and run on ALL strings up to n tokens, twice with different payloads; results must equal the predictions. Larger random grammars with inputs up to 40 tokens are judged by TLC.",
+   note="Trusted: TLC, rustc, the generated glue (token constructors, counting iterator), bounded universes and input lengths. A grammar generate accepts although the specification says it is not LALR(1) is still checked against its bounded language Lang(G,n)."),
+ "C02": dict(engine="emitted", design="5 C02, 3.3, 3.4",
+   technique="TLC model checking of Driver.tla (TreeRight: IsTree, Yield, PositionsInOrder) + replay on real emitted parsers with a generated tree walker that destructures every emitted type exactly",
+   text="At every Accept of the exploration TLC checks that the value is a derivation tree of the grammar whose leaves are the input tokens in order, each once. The predicted tree is projected through the presentation (struct/enum, named/tuple, `_` masks) and compared with what a generated walker reads out of the value returned by the real emitted parse: the walker destructures each struct/variant without `..`, names every field, requires Box<T> for nonterminal fields and the declared payload type for terminal fields, and prints payload ids that are unique per input position.",
+   note="As C01. Payload identity is observed through the glue trait Pay (reads the payload value); unit payloads carry no identity."),
+ "C03": dict(engine="emitted", design="5 C03, 3.3, 3.4",
+   technique="TLC model checking of Driver.tla (OutcomeRight vs Cfg!RefOutcome viable-prefix chart, StopsLikeCanonical vs LR1!CanonStop, Consumption) + replay on real emitted parsers through a counting iterator + TLC-judged long inputs",
+   text="At every error state TLC checks that the reported position is the least i such that w[1..i] is not a prefix of any sentence (declarative chart, productive grammars) and equals the stop position of the canonical LR(1) parser (all grammars), and that exactly i items (or |w|+1 at end of input) were pulled from the environment. The real emitted parsers are fed through a counting iterator that also notices next() after None; the returned token is identified by its payload id.",
+   note="As C01."),
+ "C08": dict(engine="lexer", design="5 C08, 3.2",
+   technique="TLC model checking: tokenizer state machine (Lexer.tla/LexCore.tla) == declarative longest-match lexical grammar (LexRef.tla) on all atom strings + replay of every explored source on the real tokenize/generate + TLC trace validation of per-char tokenizer states (LexTrace) + TLC-judged results of long random sources (LexJudge)",
+   text="MC_Lexer checks on every source of <=3 atoms (40 atoms covering every token class, boundary and 1-4 byte characters; ~35 000 sources) that the state machine mirroring tokenize.rs and the declarative rules agree on token kinds, byte spans and error reports (a set of admissible reports when two faults interact) and that byte accounting is exact. All those sources are tokenised by the real code and compared; longer seeded random sources and the repository files are judged by TLC against LexRef and their per-char state traces validated against Lexer.tla.",
+   note="Trusted: TLC; the transcription of Unicode White_Space; the atoms universe. Trace drift without a wrong result is reported as CONFORMANCE-DRIFT only."),
  "C04": dict(engine="pipeline", design="5 C04, 3.3, 3.4",
    technique="TLC model checking of TableFill.tla (MC_TableFill) + TLC-judged end-state conformance of the real generate on every grammar of the TLA+ universes (PipelineJudge over LR1.tla) + TLC trace validation of recorded builder/table-fill events (PipelineTrace)",
    text="TLC exhaustively checks, for every grammar of a bounded universe (Universe.tla: 2 nonterminals, 2 terminals, <=3 rules, |rhs|<=2 = 12 383 grammars, plus 29 classics) that the operational table filler ends in a conflict iff the declaratively defined LALR(1) automaton (canonical LR(1) merged by core) has a conflict. Every one of those grammars, seeded random larger ones and the repository's grammars are pushed through the real kiki::generate and the observed verdict is judged by TLC against the same declarative definition. Exhaustive within the universe, sampled beyond.",
